@@ -541,7 +541,7 @@ def gen_scenario(r, idx, root, launcher, thorough):
                 extra=r.choice([[], ["--extra", "a b", "it's"], [gen_word(r) for _ in range(r.randint(1, 3))]]),
                 double_spawn=r.random() < 0.6, script=script, script_env=script_env,
                 test_threads=r.choice([1, 2, 4]), entries=base["entries"], inherited=base["inherited"],
-                pkg=base["pkg"], profile="default")
+                pkg=base["pkg"], profile="default", no_capture=r.random() < 0.3)
 
 
 def write_scenario(sc, root, launcher):
@@ -568,7 +568,7 @@ def write_scenario(sc, root, launcher):
     scen = dict(root=root, metadata=hc["metadata"], package_id=hc["package_id"], config_cwd="w/sub",
                 cli_configs=hc["cli_configs"], double_spawn=sc["double_spawn"], cwd=cwd, tests=sc["tests"],
                 fail_first_attempt=sc["fail_first_attempt"], profile=sc["profile"],
-                script_env=sc.get("script_env", []))
+                script_env=sc.get("script_env", []), no_capture=bool(sc.get("no_capture")))
     sp = os.path.join(root, "scenario.json")
     json.dump(scen, open(sp, "w"))
     return sp, os.path.join(root, "log.jsonl"), cwd
@@ -703,6 +703,11 @@ def check_e2e(chk, r, thorough, corp):
                       pkg=dict(name="pkg", major=1, minor=2, patch=3, pre="", build="", authors=["A", "B"],
                                description=None, homepage=None, license=None, license_file=None, repository=None,
                                rust_version="1.70.1"), profile="default")]
+    # the same under --no-capture (tests inherit stdout / stderr; standard input is still the null device),
+    # with and without the double-spawn launcher
+    for ds in (True, False):
+        scenarios.append(dict(scenarios[0], idx=len(scenarios), double_spawn=ds, no_capture=True, test_threads=1,
+                              script=None, script_env=[]))
     for c in corp.get("scenarios", []):
         c = dict(c)
         c["entries"] = [tuple(e) for e in c["entries"]]
@@ -719,6 +724,7 @@ def check_e2e(chk, r, thorough, corp):
         obs = run_scenario(sc, root, launcher, base_env)
         chk.count("e2e_scenarios")
         chk.count("e2e_double_spawn=" + str(sc["double_spawn"]).lower())
+        chk.count("e2e_no_capture=" + str(bool(sc.get("no_capture"))).lower())
         res = oracle_scenario(sc, obs, launcher)
         fails, known = res if isinstance(res, tuple) else (res, False)
         known_seen = known_seen or known
